@@ -116,6 +116,9 @@ class Exec:
         m = re.match(r"^const (true|false)$", op)
         if m:
             return ("bool", m.group(1))
+        m = re.match(r'^const "(.*)"$', op, re.S)
+        if m:
+            return ("str", m.group(1))
         m = re.match(r"^const ([iu](?:8|16|32|64|size))::(MIN|MAX)$", op)
         if m:
             lo, hi = INT_RANGES[m.group(1)]
@@ -540,17 +543,21 @@ def callee_suffix(callee):
 
 
 def split_top(s):
-    out, depth, cur = [], 0, ""
+    out, depth, cur, instr, prev = [], 0, "", False, ""
     for ch in s:
-        if ch in "([{<":
-            depth += 1
-        elif ch in ")]}>":
-            depth -= 1
-        if ch == "," and depth == 0:
+        if ch == '"' and prev != "\\":
+            instr = not instr
+        if not instr:
+            if ch in "([{<":
+                depth += 1
+            elif ch in ")]}>":
+                depth -= 1
+        if ch == "," and depth == 0 and not instr:
             out.append(cur.strip())
             cur = ""
         else:
             cur += ch
+        prev = ch
     if cur.strip():
         out.append(cur.strip())
     return out
